@@ -384,6 +384,13 @@ func (b *BlockWise[C]) Handle(w *responsewriter.ResponseWriter[C], r *pool.Messa
 	// by the peer's request for the next block, a request we upload by the peer's response. Tokens are scoped per
 	// direction, so a request of the peer may carry the token of a request of ours - the two are unrelated.
 	if !sendingMessageExist || wantsToBeReceived(r) || isMethod(sendingMessageCode) == isMethod(r.Code()) {
+		if r.Code() == codes.Continue {
+			// 2.31 only ever asks for the next block of a request that is being sent. When there is none (it has
+			// expired with the deadline of its call, or was given up) nobody can use it: it is not the response
+			// to the request and must not be handed over as if it were.
+			b.errors(fmt.Errorf("handleReceivedMessage(%v): there is no request to continue", r))
+			return
+		}
 		if sendingMessageExist && isMethod(sendingMessageCode) && !isMethod(r.Code()) {
 			// r is (part of) the response to a request that is kept for sending. A request sent with Do is removed
 			// when Do returns; one sent with WriteMessage has nobody waiting: it is dropped at the moment the
